@@ -22,7 +22,6 @@ PROP = dict(
          "unified files are re-read once more when complete. Non-trivial: >= 2 flowing wells compared, dynamic and schedule "
          "comparisons both made; distinct = hash of (deck text, unit system)",
     stages=[
-        "schedule: the position of a segment inside WellSegments (original: branch by branch, restarted: by number) is not compared, segments are matched by number; counted as 'segment storage order differs'",
         dict(harness="c05_restart", flavour="plain", cases={Q: 2400, T: 30000}, timeout={Q: 1200, T: 7200}),
     ],
     min_nontrivial={Q: 1200, T: 15000},
@@ -34,6 +33,7 @@ PROP = dict(
                     ("c05_restart", "cases_with_actionx", {Q: 50, T: 800}),
                     ("c05_restart", "cases_with_inactive_cells", {Q: 600, T: 8000})],
     not_decided=[
+        "schedule: the position of a segment inside WellSegments (original: branch by branch, restarted: by number) is not compared, segments are matched by number; counted as 'segment storage order differs'",
         "dynamic: wells that do not flow (shut, stopped, open without open connection) are not compared (statement: flowing wells); "
         "guide rates, group/network node data, aquifers, tracers, connection cumulatives are restored by the loader but not in the statement",
         "dynamic: integer solution arrays are written (INTE) but RestartIO::load only looks for REAL/DOUB arrays (a requested INTE "
